@@ -1,9 +1,11 @@
+import GomlVerif.Driver.C04
 import GomlVerif.Driver.C05
 import GomlVerif.Driver.C08
 import GomlVerif.Driver.C06
 import GomlVerif.Driver.C10
 import GomlVerif.Driver.C12
 import GomlVerif.Driver.C15
+import GomlVerif.Driver.C20
 import GomlVerif.Driver.SemRun
 import GomlVerif.Driver.GoCheckRun
 import GomlVerif.Driver.C11
@@ -18,9 +20,11 @@ import GomlVerif.Driver.C03
 import GomlVerif.Driver.Dce
 import GomlVerif.Driver.C09
 import GomlVerif.Driver.GoComp
+import GomlVerif.Driver.C01pipe
 
 def main (args : List String) : IO UInt32 := do
   match args with
+  | ["c04"] => Goml.Driver.C04.main; return 0
   | ["c05"] => Goml.Driver.C05.main; return 0
   | ["c08"] => Goml.Driver.C08.main; return 0
   | ["c08sim"] => Goml.Driver.C08.mainSim; return 0
@@ -28,6 +32,7 @@ def main (args : List String) : IO UInt32 := do
   | ["c10"] => Goml.Driver.C10.main; return 0
   | ["c12"] => Goml.Driver.C12.main; return 0
   | ["c15"] => Goml.Driver.C15.main; return 0
+  | ["c20"] => Goml.Driver.C20.main; return 0
   | ["sem"] => Goml.Driver.SemRun.main; return 0
   | ["gocheck"] => Goml.Driver.GoCheckRun.main; return 0
   | ["c11"] => Goml.Driver.C11.main; return 0
@@ -43,4 +48,5 @@ def main (args : List String) : IO UInt32 := do
   | ["dce"] => Goml.Driver.Dce.main; return 0
   | ["c09"] => Goml.Driver.C09.main; return 0
   | ["gocomp"] => Goml.Driver.GoComp.main; return 0
+  | ["c01pipe"] => Goml.Driver.C01pipe.main; return 0
   | _ => IO.eprintln "usage: gomlmodel <c05|…> < lines"; return 2
